@@ -185,41 +185,20 @@ func (nd *Node) Deliver(n *Net, s Step, r *ev.Rand) error {
 	return nd.Chain.ProcessBlockVerification(n.Msg(s.Vote, r))
 }
 
-// Settle waits (logical condition, generous bound) until the engine's cached-vote
-// loop has consumed every epoch notification and no parked vote for an existing
-// checkpoint of the tree whose successor epoch has started remains.  It returns
-// false if the bound expired (the caller reports inconclusive, never a violation).
+// Settle waits (logical condition, generous bound) until the engine's cached-vote loop
+// has completely processed every epoch notification sent so far (exact accounting through
+// the verif hook).  It returns false if the bound expired (the caller reports
+// inconclusive, never a violation).  The parked argument is kept for documentation.
 func (nd *Node) Settle(n *Net, t *Tree, parked []*VoteSpec) bool {
 	cs := nd.Chain.VerifCasper()
-	deadline := time.Now().Add(20 * time.Second)
-	for {
-		busy := cs.VerifEpochQueueLen() > 0
-		if !busy {
-			root := t.ByHash[cs.VerifTree()[0].Hash]
-			for _, v := range parked {
-				// a vote whose target is not above the last finalized checkpoint is parked for good
-				// (the engine no longer has that checkpoint in its tree): nothing to wait for
-				if root == nil || root.Hash == v.Target.Hash || !root.IsAncestorOf(v.Target) {
-					continue
-				}
-				if !cs.VerifVoteCached(v.Target.Hash, n.PubHex[v.Key]) {
-					continue
-				}
-				// still parked: only a concern if the loop has been told about this epoch
-				// (a stored child block of the target exists) and the signer is a validator
-				if nd.epochStarted(v.Target) && n.isValidatorFor(t, v) {
-					busy = true
-				}
-			}
-		}
-		if !busy {
-			return true
-		}
+	deadline := time.Now().Add(30 * time.Second)
+	for !cs.VerifEpochLoopIdle() {
 		if time.Now().After(deadline) {
 			return false
 		}
-		time.Sleep(200 * time.Microsecond)
+		time.Sleep(100 * time.Microsecond)
 	}
+	return true
 }
 
 func (nd *Node) epochStarted(cp *Blk) bool {
